@@ -4,6 +4,7 @@ From Coq Require Import QArith ZArith List Bool Arith.
 Import ListNotations.
 From Coq Require Import Permutation.
 Require Import Plinio.Base.Qx Plinio.Model.Reassign Plinio.Proofs.Reassign Plinio.Proofs.ReassignGen Plinio.Proofs.ReassignPromote.
+Require Import Plinio.Gen.RefineGen Plinio.Proofs.RefineGen.
 Local Open Scope nat_scope.
 
 (* The two searches of optimize_prec_assignment, for EVERY cost function of the per-precision channel
@@ -107,6 +108,133 @@ Example C20_example :
   run_refine [([2;1], 10%Q); ([1;2], 7%Q); ([0;3], 9%Q)] [] [2;1] = [1;2].
 Proof. vm_compute. repeat split. Qed.
 
+(* ================================================================================================================
+   Second tie, by translation.  Gen/RefineGen.v is written by translator/refine2coq.py from the SOURCE of
+   plinio/methods/mps/utils.py of the tree under test on every run (the per-layer block of optimize_prec_assignment and
+   _reassign_precisions, statement by statement); Proofs/RefineGen.v proves the generated functions equal to the model
+   above, so the sentences of the property hold for what the code says now.  Reading conventions: translator docstring. *)
+
+(* ---- _reassign_precisions: the two loop bodies, new_assignment after the two loops, the matrix returned *)
+Theorem C20_generated_pass1_step : forall (cur : list nat) (orders : list (list nat)) (best : list nat) (a : assignment) (p : nat),
+  Permutation (nth p orders []) (seq 0 (length cur)) ->
+  pass1_step_gen cur orders best a p = pass1_step cur a p (nth p orders []) (nth p best 0).
+Proof. exact pass1_step_gen_eq. Qed.
+
+Theorem C20_generated_pass2_step : forall (cur : list nat) (orders : list (list nat)) (best : list nat) (a : assignment) (p : nat),
+  Forall (fun c => c < length a) (nth p orders []) ->
+  pass2_step_gen cur orders best a p = pass2_step a p (nth p orders []) (nth p best 0).
+Proof. exact pass2_step_gen_eq. Qed.
+
+Theorem C20_generated_reassign_abs : forall (cur : list nat) (orders : list (list nat)) (best : list nat),
+  length best = length orders -> Forall (fun o => Permutation o (seq 0 (length cur))) orders ->
+  reassign_abs_gen cur orders best = reassign_abs cur orders best.
+Proof. exact reassign_abs_gen_eq. Qed.
+
+(* row p, column c of the returned matrix is 1 exactly when channel c was given precision p *)
+Theorem C20_generated_matrix : forall (cur : list nat) (orders : list (list nat)) (best : list nat) (p c : nat),
+  p < length orders -> c < length cur ->
+  nth c (nth p (reassign_matrix_gen cur orders best) []) false = is_prec p (get (reassign_abs_gen cur orders best) c).
+Proof. exact reassign_matrix_gen_spec. Qed.
+
+(* ---- the two searches, for EVERY cost function `cost_own` of the count vector in the quantizer's own order, every
+   precision tuple and every start vector.  The loop state of the code is (best_cost, best configuration, configuration
+   being drained); `sinv`: best_cost is the cost of the best configuration.  gcost = cost_own o _unsorted,
+   gskip i = (sorted_precisions[i] == 0), ginit = the comprehension over sorted_indexes *)
+Theorem C20_generated_search1 : forall (cost_own : list nat -> Q) (prec w : list nat) (base : Q) (s : st),
+  sinv cost_own prec s ->
+  sinv cost_own prec (search1_gen cost_own prec w base s) /\
+  best_of (search1_gen cost_own prec w base s) = search1 (gcost cost_own prec) (gskip prec) (ginit prec w) (best_of s).
+Proof. exact search1_gen_eq. Qed.
+
+Theorem C20_generated_search2 : forall (cost_own : list nat -> Q) (prec w : list nat) (base : Q) (s : st),
+  sinv cost_own prec s -> tmp_of s = ginit prec w ->
+  sinv cost_own prec (search2_gen cost_own prec w base s) /\
+  best_of (search2_gen cost_own prec w base s) = search2 (gcost cost_own prec) (gskip prec) (ginit prec w) (best_of s).
+Proof. exact search2_gen_eq. Qed.
+
+(* the block up to the end of the second search (None = the assert on the cost of the unchanged layer fails) *)
+Theorem C20_generated_refine : forall (cost_own : list nat -> Q) (prec w : list nat) (base : Q),
+  length w = length prec ->
+  refine_gen cost_own prec w base =
+  if Qeq_bool (cost_own w) base then Some (refine (gcost cost_own prec) (gskip prec) (ginit prec w)) else None.
+Proof. exact refine_gen_is_refine. Qed.
+
+(* the `while` loops are read as recursion with fuel = the count being drained: the fuel suffices, the loop condition
+   is false when the recursion stops *)
+Theorem C20_generated_while1_exits : forall (cost_own : list nat -> Q) (prec w : list nat) (base : Q) (i j : nat) (s : st),
+  i <> j -> j < length (ginit prec w) -> sinv cost_own prec s ->
+  search1_while_cond_gen cost_own prec w base i j
+    (while_fuel (search1_while_cond_gen cost_own prec w base i j) (search1_while_gen cost_own prec w base i j)
+       (nth i (ginit prec w) 0) (fst s, ginit prec w)) = false.
+Proof. exact search1_while_exits. Qed.
+
+Theorem C20_generated_while2_exits : forall (cost_own : list nat -> Q) (prec w : list nat) (base : Q) (i j : nat) (s : st),
+  i <> j -> j < length (tmp_of s) -> sinv cost_own prec s ->
+  search2_while_cond_gen cost_own prec w base i j
+    (while_fuel (search2_while_cond_gen cost_own prec w base i j) (search2_while_gen cost_own prec w base i j)
+       (nth i (tmp_of s) 0) s) = false.
+Proof. exact search2_while_exits. Qed.
+
+(* ---- the permutation bookkeeping: inverse_indexes is the inverse of sorted_indexes, _unsorted is `unsort`, the
+   comprehension over sorted_indexes is `init_sorted` *)
+Theorem C20_generated_inverse_indexes : forall (prec : list nat) (p : nat), p < length prec ->
+  pos_of_gen prec p < length prec /\ own_of_gen prec (pos_of_gen prec p) = p.
+Proof. exact inverse_indexes_inverse. Qed.
+
+Theorem C20_generated_unsorted : forall (prec : list nat) (v : vec), unsorted_gen prec v = unsort (pos_of_gen prec) (length prec) v.
+Proof. exact unsorted_gen_eq. Qed.
+
+Theorem C20_generated_sorted_init : forall prec cur : list nat,
+  ginit prec (own_counts (length prec) cur) = init_sorted cur (length prec) (own_of_gen prec).
+Proof. exact ginit_eq. Qed.
+
+(* ---- the whole per-layer block is the composition the theorems above are about *)
+Theorem C20_generated_layer : forall (cost_own : list nat -> Q) (prec : list nat) (base : Q) (cur : list nat) (orders : list (list nat)),
+  length orders = length prec -> Forall (fun o => Permutation o (seq 0 (length cur))) orders ->
+  layer_run_gen cost_own prec base cur orders =
+  if Qeq_bool (cost_own (own_counts (length prec) cur)) base
+  then Some (reassign_abs cur orders (best_own (gcost cost_own prec) (gskip prec) (length prec) cur (own_of_gen prec) (pos_of_gen prec)))
+  else None.
+Proof. exact layer_run_gen_eq. Qed.
+
+(* ---- the sentences of the property, about the generated functions *)
+(* cost not higher: what _compute_cost gives for the configuration the block keeps is at most base_cost *)
+Theorem C20_generated_cost_not_higher : forall (cost_own : list nat -> Q) (prec w : list nat) (base : Q),
+  length w = length prec -> forall r : vec, refine_gen cost_own prec w base = Some r ->
+  (cost_own (unsorted_gen prec r) <= base)%Q.
+Proof. exact gen_cost_not_higher. Qed.
+
+(* only upward moves (hence, C20_up_total / C20_up_upper: same number of channels, no upper tail shrinks) *)
+Theorem C20_generated_only_upward : forall (cost_own : list nat -> Q) (prec w : list nat) (base : Q),
+  length w = length prec -> forall r : vec, refine_gen cost_own prec w base = Some r -> up (ginit prec w) r.
+Proof. exact gen_only_upward. Qed.
+
+(* separation: every precision that gains channels lies above every precision that loses channels *)
+Theorem C20_generated_separates : forall (cost_own : list nat -> Q) (prec w : list nat) (base : Q),
+  length w = length prec -> forall r : vec, NoDup prec -> refine_gen cost_own prec w base = Some r -> sep (ginit prec w) r.
+Proof. exact gen_separates. Qed.
+
+(* counts met: every channel has exactly one precision and every precision the number of channels the search kept *)
+Theorem C20_generated_counts_met : forall (cost_own : list nat -> Q) (prec : list nat) (base : Q) (cur : list nat) (orders : list (list nat)),
+  length orders = length prec -> Forall (fun o => Permutation o (seq 0 (length cur))) orders ->
+  Forall (fun p => p < length prec) cur ->
+  forall (a : assignment) (r : vec),
+  layer_run_gen cost_own prec base cur orders = Some a ->
+  refine_gen cost_own prec (own_counts (length prec) cur) base = Some r ->
+  reassign_ok a (unsorted_gen prec r) = true.
+Proof. exact gen_counts_met. Qed.
+
+(* no channel demoted: a channel keeps its precision or gets one of strictly higher BIT-WIDTH, in whatever order the
+   quantizer lists its (pairwise different) precisions *)
+Theorem C20_generated_no_channel_demoted : forall (cost_own : list nat -> Q) (prec : list nat) (base : Q) (cur : list nat) (orders : list (list nat)),
+  length orders = length prec -> Forall (fun o => Permutation o (seq 0 (length cur))) orders ->
+  Forall (fun p => p < length prec) cur ->
+  forall a : assignment, NoDup prec ->
+  layer_run_gen cost_own prec base cur orders = Some a ->
+  forall c x, c < length cur -> get a c = Some x -> x = nth c cur 0 \/ nth (nth c cur 0) prec 0 < nth x prec 0.
+Proof. exact gen_no_channel_demoted. Qed.
+
+
 Print Assumptions C20_refine_cost_le.
 Print Assumptions C20_refine_up.
 Print Assumptions C20_up_total.
@@ -119,3 +247,21 @@ Print Assumptions C20_reassign_promotes.
 Print Assumptions C20_no_channel_demoted_any_order.
 Print Assumptions C20_no_channel_demoted.
 Print Assumptions C20_refined_counts_met.
+Print Assumptions C20_generated_pass1_step.
+Print Assumptions C20_generated_pass2_step.
+Print Assumptions C20_generated_reassign_abs.
+Print Assumptions C20_generated_matrix.
+Print Assumptions C20_generated_search1.
+Print Assumptions C20_generated_search2.
+Print Assumptions C20_generated_refine.
+Print Assumptions C20_generated_while1_exits.
+Print Assumptions C20_generated_while2_exits.
+Print Assumptions C20_generated_inverse_indexes.
+Print Assumptions C20_generated_unsorted.
+Print Assumptions C20_generated_sorted_init.
+Print Assumptions C20_generated_layer.
+Print Assumptions C20_generated_cost_not_higher.
+Print Assumptions C20_generated_only_upward.
+Print Assumptions C20_generated_separates.
+Print Assumptions C20_generated_counts_met.
+Print Assumptions C20_generated_no_channel_demoted.
